@@ -13,6 +13,7 @@
 (3) independent monitors: the three clauses of C15 stated on the two real outputs."""
 import collections
 import json
+import re
 import os
 import sys
 import time
@@ -22,7 +23,7 @@ import c14_space as S  # noqa: E402
 import c14  # noqa: E402
 from c14 import (SIG_SUB_ORDER, SIG_UNSUB_TOPIC, Tally, viol, enc_kind2, ensure_runner, mon_kip54,  # noqa: E402
                  mon_valid, run_coq, run_ocaml, settle, split_jobs, triples_of_out)
-from common import NPROC, VERIF, Check, run_impl  # noqa: E402
+from common import NPROC, VERIF, Check, parse_eval_outputs, run_impl  # noqa: E402
 
 
 # =============================================================================== monitors
@@ -214,6 +215,39 @@ def check_conflicts_by_generation(ck, case, st, origin, hist):
             return
 
 
+ORDER_CASES = []      # (counts, owners, python verdict) of every recorded candidate order, for the in-Coq evaluation
+
+
+def order_ok_py(counts, owners):
+    """mirror of C15_Order.order_ok (the Coq definition decides a sample of the same data; both must agree)"""
+    l = list(counts)
+    for c in owners:
+        if not (0 <= c < len(l)) or l[c] <= 0 or l[c] != max(l):
+            return False
+        l[c] -= 1
+    return True
+
+
+def check_candidate_order(ck, case, st, origin, hist, tally):
+    """mechanism of the 'members joined' clause: with identical subscriptions the reassignment candidates are listed
+    one per turn from a member holding the most not-yet-listed partitions (C15_Order.order_ok; theorem
+    c15_heaviest_first_lockstep is about exactly such orders)"""
+    od = st.get("order")
+    if not od:
+        return
+    ok = order_ok_py(od["counts"], od["owners"]) and len(od["owners"]) == sum(od["counts"])
+    tally.n["candidate-orders:ok" if ok else "candidate-orders:bad"] += 1
+    if len(ORDER_CASES) < 4000 or not ok:
+        ORDER_CASES.append((od["counts"], od["owners"], ok))
+    if not ok:
+        viol(ck, f"identical subscriptions: the sticky assignor lists its reassignment candidates out of lock-step - "
+                 f"members {od['members']} hold {od['counts']} assignable partitions and the candidates are taken from "
+                 f"members (by index) {od['owners']}: some member gives up a partition while another one holds more, so "
+                 f"old members are drained unevenly and partitions move between them when members join",
+             {"origin": origin, "case": case, "history": hist[:-1], "order": od},
+             signature=f"sticky-candidate-order-not-heaviest-first:{S.case_key(case)}"[:200])
+
+
 def check_chain(ck, rounds, tally, streams, origin):
     """rounds: [{"case":…, "sticky":…}] as returned by the impl"""
     prev = None
@@ -225,6 +259,7 @@ def check_chain(ck, rounds, tally, streams, origin):
             break
         ck.count(key=("chain", S.case_key(case)), nontrivial=bool(st.get("final")),
                  sample={"origin": origin, "round": i, "case": case, "result": st["out"]} if i == 2 else None)
+        check_candidate_order(ck, case, st, origin, hist, tally)
         stale = stale_claims(case)
         if stale and "init" in st:
             check_conflicts_by_generation(ck, case, st, origin, hist)
@@ -416,6 +451,21 @@ def run(ck: Check):
             n_ok, n_bad = tally.n[k + ":ok"], tally.n[k + ":bad"]
             ck.obligation(f"correspondence:{what}[{eng}]", n_bad == 0 and n_ok > 0,
                           f"{n_ok} agree" if n_bad == 0 else f"{n_bad} of {n_ok + n_bad} disagree; first: {tally.detail(k)}")
+    # ---------------- the recorded candidate orders, decided inside Coq (C15_Order.order_ok by vm_compute)
+    ORDER_CASES.sort(key=lambda x: (x[2], -len(x[1])))          # rejected ones first, then the longest
+    osample = ORDER_CASES[:ck.n(1500, 4000)]
+    if osample:
+        nat_list = lambda xs: "[" + "; ".join(str(max(x, 0)) if x >= 0 else "999" for x in xs) + "]%nat"  # noqa: E731
+        body = "Eval vm_compute in (map (fun p => order_ok (fst p) (snd p)) [" + ";\n ".join(
+            f"({nat_list(c)}, {nat_list(o)})" for c, o, _ in osample) + "]).\n"
+        okc, out = ck.coq_eval("c15_orders", ["C15_Order"], body)
+        vals = re.findall(r"true|false", " ".join(parse_eval_outputs(out))) if okc else []
+        agree = okc and len(vals) == len(osample) and all((v == "true") == ok for v, (_, _, ok) in zip(vals, osample))
+        ck.obligation("correspondence:candidate-order-checker(python)==C15_Order.order_ok(coq)", agree,
+                      "" if agree else f"coq ok={okc}, {len(vals)} verdicts for {len(osample)} orders: {out[-300:]}")
+    ck.obligation("correspondence:sorted_partitions-is-heaviest-first-one-per-turn",
+                  tally.n["candidate-orders:bad"] == 0 and tally.n["candidate-orders:ok"] > 0,
+                  f"{tally.n['candidate-orders:ok']} orders accepted, {tally.n['candidate-orders:bad']} rejected")
     ck.extra["counters"] = dict(tally.n)
     ck.extra["timing_s"] = {"total": round(time.time() - t_start, 1)}
 
